@@ -16,6 +16,7 @@ RULE = (
     "effective (function, argument, context) is new run, the others are served; no body ever receives a context key as a parameter; with further calls prevented every nested memento call "
     "raises RuntimeError and no nested body runs. Non-trivial = an override below an inherited context, or two root contexts sharing a subtree; distinct by (tree, contexts)."
     " Round 5: while t0 is suspended at a pause point under context arguments (second variant: with further calls prevented), another thread makes an unrelated top-level call without context: it must succeed, be stored without context arguments and not under the suspended caller's context."
+    " Round 6: context arguments optionally attached over a look-alike dictionary (1 / True / 1.0 ...) that the real one replaces."
 )
 ASSUMPTIONS = [
     "context values are strings/ints; the empty dict override means 'no context arguments below this edge'",
